@@ -127,6 +127,19 @@
 	#define HFSM2_BREAK_AVAILABLE()										   false
 #endif
 
+#ifdef HFSM2_VERIF
+	extern "C" void hfsm2_verif_break(const char* file, int line) noexcept;
+
+	#undef  HFSM2_BREAK
+	#undef  HFSM2_BREAK_AVAILABLE
+	#define HFSM2_BREAK()			 ::hfsm2_verif_break(__FILE__, __LINE__)
+	#define HFSM2_BREAK_AVAILABLE()											true
+
+	#ifndef HFSM2_ENABLE_ASSERT
+		#define HFSM2_ENABLE_ASSERT
+	#endif
+#endif
+
 #ifdef _DEBUG
 	#define HFSM2_IF_DEBUG(...)										 __VA_ARGS__
 	#define HFSM2_UNLESS_DEBUG(...)
